@@ -34,10 +34,11 @@ Record store := MkStore {
    reach storage (the process will die before its asynchronous cleanup lands), so obsolete files pile up *)
 (* [w_sps]: the savepoint artifacts in storage (savepoints/<segment>/job.savepoint, one per id, a copy of the job
    checkpoint file made at publication) *)
-Record world := MkWorld { w_store : store; w_files : list snapobs; w_lose : bool; w_sps : list snapobs }.
+(* [w_failw]: fault injection - the next Write of a snapshot file returns an error *)
+Record world := MkWorld { w_store : store; w_files : list snapobs; w_lose : bool; w_sps : list snapobs; w_failw : bool }.
 
 Definition new_store : store := MkStore [] None 0.
-Definition init : world := MkWorld new_store [] false [].
+Definition init : world := MkWorld new_store [] false [] false.
 
 (* ---- Go maps string -> bool as association lists with unique keys ---- *)
 Definition mk_flags (l : list N) : list (N * bool) := map (fun x => (x, false)) (nodup N.eq_dec l).
@@ -94,7 +95,7 @@ Definition publish (w : world) (p : pending) : world * pubobs :=
   let obsolete := ids_of (completed st) in
   let files2 := if cleanup && negb (w_lose w) then without obsolete files1 else files1 in
   let st' := MkStore (if superseded then completed st else [s]) None (ckpt_id st) in
-  (MkWorld st' files2 (w_lose w) (if p_sp p then s :: without [sn_id s] (w_sps w) else w_sps w),
+  (MkWorld st' files2 (w_lose w) (if p_sp p then s :: without [sn_id s] (w_sps w) else w_sps w) (w_failw w),
    MkPub s (if cleanup then [obsolete] else []) (if cleanup then [[sn_id s]] else []) (p_sp p)).
 
 (* LoadCheckpoint (repaired code): the snapshot file with the greatest id *)
@@ -126,20 +127,33 @@ Inductive action :=
 | ARestart
 | ALoseRemoves (b : bool)    (* fault injection, not an API call *)
 | ARestartFrom (id : N)      (* a new Store started with the SavepointURI of savepoint [id] on the same storage *)
-| AAbort.                    (* AbortPendingCheckpoint (the job calls it when it starts a new assembly) *)
+| AAbort                     (* AbortPendingCheckpoint (the job calls it when it starts a new assembly) *)
+| AFailNextWrite.            (* fault injection: the next Write of a snapshot file fails *)
 
 Inductive result :=
 | RCreate (err : bool) (id : N)
 | RSavepoint (err : bool) (id : N) (created : bool)
 | RAck (err : bool) (pub : option pubobs)
 | RRestart (files : list N) (cur : option snapobs)
+(* the acknowledgement completed the checkpoint but the Write of its snapshot file failed (error on the error
+   channel): Remove calls, notifications and CurrentCheckpoint().Id observed afterwards *)
+| RAckFailed (err : bool) (removed notes : list (list N)) (cur : option N)
 | RFault.
 
 Definition with_pending (w : world) (p : option pending) : world :=
-  MkWorld (MkStore (completed (w_store w)) p (ckpt_id (w_store w))) (w_files w) (w_lose w) (w_sps w).
+  MkWorld (MkStore (completed (w_store w)) p (ckpt_id (w_store w))) (w_files w) (w_lose w) (w_sps w) (w_failw w).
+
+Definition cur_of (w : world) : option N := match completed (w_store w) with c :: _ => Some (sn_id c) | [] => None end.
+
+(* the write of the snapshot file fails: finishSnapshotAsync returns the error before touching anything; the
+   pending snapshot is gone (it was cleared when it completed), the id is used up *)
+Definition fail_publish (w : world) : world :=
+  MkWorld (MkStore (completed (w_store w)) None (ckpt_id (w_store w))) (w_files w) (w_lose w) (w_sps w) false.
 
 Definition finish_if_complete (w : world) (p : pending) : world * result :=
-  if is_complete p then let (w', pub) := publish w p in (w', RAck false (Some pub))
+  if is_complete p then
+    if w_failw w then (fail_publish w, RAckFailed false [] [] (cur_of w))
+    else let (w', pub) := publish w p in (w', RAck false (Some pub))
   else (with_pending w (Some p), RAck false None).
 
 Definition step (q : quirks) (w : world) (a : action) : world * result :=
@@ -150,7 +164,7 @@ Definition step (q : quirks) (w : world) (a : action) : world * result :=
       | Some _ => (w, RCreate true 0)
       | None =>
           let id := ckpt_id st + 1 in
-          (MkWorld (MkStore (completed st) (Some (new_pending id ops srs false)) id) (w_files w) (w_lose w) (w_sps w), RCreate false id)
+          (MkWorld (MkStore (completed st) (Some (new_pending id ops srs false)) id) (w_files w) (w_lose w) (w_sps w) (w_failw w), RCreate false id)
       end
   | ASavepoint ops srs =>
       match pend st with
@@ -160,7 +174,7 @@ Definition step (q : quirks) (w : world) (a : action) : world * result :=
                 RSavepoint false (p_id p) false)
       | None =>
           let id := ckpt_id st + 1 in
-          (MkWorld (MkStore (completed st) (Some (new_pending id ops srs true)) id) (w_files w) (w_lose w) (w_sps w), RSavepoint false id true)
+          (MkWorld (MkStore (completed st) (Some (new_pending id ops srs true)) id) (w_files w) (w_lose w) (w_sps w) (w_failw w), RSavepoint false id true)
       end
   | AAckOp cid op pl =>
       match pend st with
@@ -181,13 +195,14 @@ Definition step (q : quirks) (w : world) (a : action) : world * result :=
       end
   | ARestart =>
       let st' := load_store (w_files w) in
-      (MkWorld st' (w_files w) false (w_sps w), RRestart (ids_of (w_files w)) (hd_error (completed st')))
-  | ALoseRemoves b => (MkWorld st (w_files w) b (w_sps w), RFault)
+      (MkWorld st' (w_files w) false (w_sps w) false, RRestart (ids_of (w_files w)) (hd_error (completed st')))
+  | ALoseRemoves b => (MkWorld st (w_files w) b (w_sps w) (w_failw w), RFault)
+  | AFailNextWrite => (MkWorld st (w_files w) (w_lose w) (w_sps w) true, RFault)
   | ARestartFrom id =>
       (* LoadCheckpoint with a savepoint URI: the savepoint overrides whatever checkpoints the storage holds *)
       match find_snap id (w_sps w) with
-      | Some a => (MkWorld (MkStore [a] None (sn_id a)) (w_files w) false (w_sps w), RRestart (ids_of (w_files w)) (Some a))
-      | None => (MkWorld new_store (w_files w) false (w_sps w), RRestart (ids_of (w_files w)) None)
+      | Some a => (MkWorld (MkStore [a] None (sn_id a)) (w_files w) false (w_sps w) false, RRestart (ids_of (w_files w)) (Some a))
+      | None => (MkWorld new_store (w_files w) false (w_sps w) false, RRestart (ids_of (w_files w)) None)
       end
   | AAbort => (with_pending w None, RFault)
   end.
@@ -215,7 +230,8 @@ Definition trace (q : quirks) (acts : list action) : list (action * result) := c
    13 a second checkpoint in progress; 14 an id handed out is not greater than the previous one of this store
    lifetime; 15 an id handed out is not greater than every id published so far (also across restarts; after a start from a
    savepoint: not greater than that savepoint's id and everything published since);
-   16 a restart does not resume from the newest published checkpoint / a start from a savepoint not from it. *)
+   16 a restart does not resume from the newest published checkpoint / a start from a savepoint not from it;
+   18 a checkpoint whose snapshot write failed nevertheless removed files, announced retention or became current. *)
 Record mpend := MkMPend {
   mp_id : N; mp_ops : list N; mp_srs : list N;
   mp_got_ops : list entry; mp_got_srs : list (N * list N) }.
@@ -274,6 +290,26 @@ Definition mon_pub (m : mon) (pub : option pubobs) : mon * list N :=
              (if pb_sp pb then s :: without [sn_id s] (m_sps m) else m_sps m), codes)
   end.
 
+Definition res_err (r : result) : bool :=
+  match r with RAck e _ => e | RAckFailed e _ _ _ => e | _ => false end.
+
+(* the result of an acknowledgement, after the monitor has counted it: a publication, or a failed write - which
+   must leave everything as if the checkpoint had not completed: nothing removed, nothing announced, the
+   unpersisted checkpoint not current (code 18) *)
+Definition mon_ack (m : mon) (r : result) : mon * list N :=
+  match r with
+  | RAck _ pub => mon_pub m pub
+  | RAckFailed _ removed notes cur =>
+      (MkMon None (m_last m) (m_pub m) (m_cur m) (m_sps m),
+       match m_pend m with
+       | Some mp =>
+           if (match removed with [] => true | _ => false end) && (match notes with [] => true | _ => false end)
+              && negb (match cur with Some c => c =? mp_id mp | None => false end) then [] else [18]
+       | None => [18]
+       end)
+  | _ => (m, [])
+  end.
+
 Definition mon_create (m : mon) (id : N) (ops srs : list N) : mon * list N :=
   (MkMon (Some (MkMPend id ops srs [] [])) id (m_pub m) (m_cur m) (m_sps m),
    (match m_pend m with Some _ => [13] | None => [] end)
@@ -286,7 +322,7 @@ Definition mon_step (m : mon) (ev : action * result) : mon * list N :=
   | (ASavepoint ops srs, RSavepoint false id true) => mon_create m id ops srs
   | (ASavepoint _ _, RSavepoint false id false) =>
       (m, match m_pend m with Some mp => if mp_id mp =? id then [] else [13] | None => [13] end)
-  | (AAckOp cid op pl, RAck _ pub) =>
+  | (AAckOp cid op pl, r) =>
       let m1 :=
         match m_pend m with
         | Some mp =>
@@ -296,18 +332,18 @@ Definition mon_step (m : mon) (ev : action * result) : mon * list N :=
             else m
         | None => m
         end in
-      mon_pub m1 pub
-  | (AAckSr cid sr sts, RAck err pub) =>
+      mon_ack m1 r
+  | (AAckSr cid sr sts, r) =>
       let m1 :=
         match m_pend m with
         | Some mp =>
-            if negb err && (mp_id mp =? cid) && mem sr (mp_srs mp) && negb (mem sr (map fst (mp_got_srs mp)))
+            if negb (res_err r) && (mp_id mp =? cid) && mem sr (mp_srs mp) && negb (mem sr (map fst (mp_got_srs mp)))
             then MkMon (Some (MkMPend (mp_id mp) (mp_ops mp) (mp_srs mp) (mp_got_ops mp) (mp_got_srs mp ++ [(sr, sts)])))
                        (m_last m) (m_pub m) (m_cur m) (m_sps m)
             else m
         | None => m
         end in
-      mon_pub m1 pub
+      mon_ack m1 r
   | (ARestart, RRestart _ cur) =>
       (MkMon None 0 (m_pub m) (ids_of (m_pub m)) (m_sps m),
        match max_snap None (m_pub m), cur with
